@@ -118,6 +118,34 @@ Proof.
   destruct (most_accurate ta "std::vector"); [destruct H|exact I].
 Qed.
 
+(* ** (visit_special_BinOp): an operand that is not a plain number - an object, a pointer, a collection, a
+   sequence, an enum value - is refused, in either position *)
+Lemma pow_nonnumber_refused G f fs a b k :
+  (visit G f fs a = OK k \/ visit G f fs b = OK k) -> err (pow_operand k) -> err (visit G (S f) fs (EBinOp "Pow" a b)).
+Proof.
+  intros H Hk. cbn. destruct H as [H|H]; rewrite H; cbn [bind].
+  - step. apply err_bind_l. exact Hk.
+  - step. cbn [bind]. step. apply err_bind_l. exact Hk.
+Qed.
+
+(* + - * / %: an operand whose type is not int/float/double (an object, a collection, a sequence, a bool) is
+   refused by most_accurate_type, in either position *)
+Lemma arith_nonnumber_refused G f fs op a b k t :
+  known_binop op = true -> (visit G f fs a = OK k \/ visit G f fs b = OK k) ->
+  type_name k = OK t -> is_num_type t = false -> err (visit G (S f) fs (EBinOp op a b)).
+Proof.
+  intros Hop H Ht Hn. cbn. rewrite Hop. destruct H as [H|H]; rewrite H; cbn [bind].
+  - step. rewrite Ht. cbn [bind]. step. unfold most_accurate. rewrite Hn. exact I.
+  - step. cbn [bind]. step. rewrite Ht. cbn [bind]. unfold most_accurate. rewrite Hn, andb_false_r. exact I.
+Qed.
+
+(* unary + and -: an operand that is not a plain number is refused *)
+Lemma unary_nonnumber_refused G f fs op a k :
+  String.eqb op "Not" = false -> visit G f fs a = OK k -> err (pow_operand k) -> err (visit G (S f) fs (EUnOp op a)).
+Proof.
+  intros Hop H Hk. cbn. step; [|exact I]. rewrite H. cbn [bind]. rewrite Hop. apply err_bind_l. exact Hk.
+Qed.
+
 Lemma column_count_mismatch_refused v n :
   List.length (match v with KTuple ks => ks | _ => [v] end) <> n -> err (result_ttree (KSeq v) n).
 Proof.
@@ -224,7 +252,7 @@ Proof.
   - (* binR *) cbn. step; [|step; [|exact I]].
     + apply err_bind_r; intro. use IHc.
     + step. use IHc.
-  - (* un *) cbn. step; [|exact I]. apply err_bind_l, err_bind_l, IHc.
+  - (* un *) cbn. step; [|exact I]. apply err_bind_l, IHc.
   - (* cmpL *) cbn. apply err_bind_l, err_bind_l, IHc.
   - (* cmpR *) cbn. apply err_bind_r; intro. apply err_bind_l, err_bind_l, IHc.
   - (* boolop *) cbn. apply err_bind_l. apply vis_list_err, IHc.
